@@ -126,3 +126,16 @@ func init() {
 			map[string]int64{"dict_entries_checked": 1500000, "dict_general_after_single": 30000, "dict_provenance_merged_twice": 1500}),
 	}
 }
+
+func init() {
+	props["C07"] = &propSpec{
+		Level:       "exploration",
+		Rule:        "bounded-exhaustive part (exhaustive=true refers to it): N <= 5 (quick) / N <= 7 (thorough) documents; for every non-empty postings set P, chunk size in {1,2,3,N}, segment variant {built in memory, built+mmap, merged+mmap (single-hit where |P|=1)}, field {with locations, without}, exclusion set E ⊆ [0,N) (nil and empty bitmap both used for E=∅), detail flags {none, freq+norm, all, locs only, freq only}: every complete Next/Advance(x) call path (x strictly beyond the last returned document, up to N) until nil plus one more call, each on alternately fresh and recycled list/iterator objects; Count, ActualBitmap and DocNum1Hit compared with P∖E; ReplaceActual(S) for every S ⊆ P∖E (N <= 5); hits carry pairwise distinct freq/norm/locations. Random part: 2 segments (mid/tall, modes 1025/1026/3/1024, edge cardinalities 1023..2049) + their merge, random (field, term, E, flags) requests through 3 recycled list/iterator slots with random Next/Advance walks. distinct_nontrivial = number of (P,E,chunk,flags,field,variant) tuples walked (all have P non-empty) + distinct random instances",
+		Assumptions: append([]string{"Advance targets are strictly beyond the last returned document; ReplaceActual is called on a fresh non-single-hit iterator with a subset of ActualBitmap()"}, commonAssumptions...),
+		Runs: func(tier string) []runSpec {
+			return []runSpec{{Workload: "C07", Flavour: "plain", Shards: 16, TimeoutS: tq(tier, 900, 7200)}}
+		},
+		Min: mins(map[string]int64{"c07_walks": 200000, "c07_single_hit_lists": 10, "c07_docnum1hit_seen": 10, "c07_replace_actual_subsets": 10000, "c07_random_steps": 20000, "c07_random_lists_card_gt_1024": 5},
+			map[string]int64{"c07_walks": 20000000, "c07_single_hit_lists": 20, "c07_docnum1hit_seen": 20, "c07_replace_actual_subsets": 10000, "c07_random_steps": 200000, "c07_random_lists_card_gt_1024": 50}),
+	}
+}
